@@ -42,7 +42,11 @@ func (consumersSuite) Gen(r *rand.Rand, i int) Case {
 		c.Tags = append(c.Tags, "run-stats-only")
 	}
 	id := 1
-	for j, m := 0, 3+r.Intn(30); j < m; j++ {
+	mLong := 3 + r.Intn(30)
+	if r.Intn(25) == 0 {
+		mLong = 150 + r.Intn(250) // a long history
+	}
+	for j, m := 0, mLong; j < m; j++ {
 		switch x := r.Intn(100); {
 		case x < 60:
 			run := pick(r, "nil", "nil", fmt.Sprintf("e%d", id), fmt.Sprintf("e%d", id), fmt.Sprintf("bad%d", id), "ctxerr")
